@@ -548,7 +548,8 @@ PROPS["C17"] = {
                   "state is accepted only if it is the exact unpadded base64url encoding of the canonical JSON of the request it decodes to; every resolvable DID ends in suffix:initial-state "
                   "where the request is accepted by the parser under the handler's protocol and the suffix is the sha2-256 model multihash of its suffix data (via C03); the id and "
                   "equivalent id of the result; an offline resolution reports published = false and, in its method metadata, exactly the recovery commitment and anchor origin of the suffix data "
-                  "embedded in the DID (resolve_reports_recovery_commitment); the model's protocol value equals the literal in config/protocol.go. 'Resolves to a document equivalent to the one supplied' and "
+                  "embedded in the DID and the update commitment of the embedded delta; the result is the transformation of a state whose document is the composer's result for the embedded "
+                  "delta's patches on the empty document, that delta being valid and hash-bound to the embedded suffix data (resolve_is_what_was_created); the model's protocol value equals the literal in config/protocol.go. 'Resolves to a document equivalent to the one supplied' and "
                   "'creation is deterministic' rest on the correspondence (ProcessOperation then ResolveDocument compared in full; VDR.Create repeated).",
     "level_note": "Trusted: Lean kernel; extractor; harness. did-go's document (un)marshalling used by VDR.Create/Read is not modelled: the VDR stream checks the round trip with an oracle "
                   "written in the harness (key ids, purposes, services, also-known-as survive; same input gives the same DID).",
